@@ -37,6 +37,16 @@ class Entropy:
         return out
 
 
+class FalsyEntropy(Entropy):
+    """an entropy callable whose truth value is False (e.g. a pool object reporting length 0): the library must
+    still use it -- `entropy_f or os.urandom` style defaults are wrong"""
+    def __bool__(self):
+        return False
+
+    def __len__(self):
+        return 0
+
+
 def hx(b):
     return hexlify(b).decode() if b else "-"
 
@@ -158,10 +168,10 @@ class Impl:
             pid, gid = int(ws[1]), int(ws[2])
             self.params[pid] = params_mod._Params(self.groups[gid], M=unhx(ws[3]), N=unhx(ws[4]), S=unhx(ws[5]))
             return "ok"
-        if op == "new":
+        if op in ("new", "newfalsy"):
             sid, side, pid = int(ws[1]), ws[2], int(ws[3])
             pw, idA, idB, ent = (unhx(x) for x in ws[4:8])
-            e = Entropy(ent)
+            e = Entropy(ent) if op == "new" else FalsyEntropy(ent)
             p = self.params[pid]
             if side == "S":
                 s = sp.SPAKE2_Symmetric(pw, idSymmetric=idA, params=p, entropy_f=e)
